@@ -5,7 +5,7 @@
 //! (b) the same mode over the width-1 toy cipher with the same key.
 
 use crate::common::*;
-use crate::{ensure, ensure_eq_bytes};
+use crate::{ensure, ensure_eq_bytes, pick};
 use vp_base::obj::*;
 use vp_base::tape::{self, Tape};
 
@@ -31,7 +31,7 @@ fn continue_blocks(obj: &mut dyn BlockModeObj, unit: usize, suffix: &[u8]) -> Ve
 }
 
 fn block_modes(ctx: &Ctx, t: &mut Tape<'_>, r: &mut Report) -> CheckResult {
-    let suite = ctx.pick_suite(t, |_| true);
+    let suite = pick!(ctx, t, r, |_| true);
     let modes = modes_for(suite);
     let (mode, dir) = modes[t.idx(modes.len())];
     let f = suite.block_mode(mode, dir).unwrap();
@@ -150,7 +150,7 @@ fn run_core(obj: &mut dyn StreamCoreObj, bs: usize, data: &[u8], pieces: &[(usiz
 }
 
 fn stream_cores(ctx: &Ctx, t: &mut Tape<'_>, r: &mut Report) -> CheckResult {
-    let suite = ctx.pick_suite(t, |_| true);
+    let suite = pick!(ctx, t, r, |_| true);
     let f = &suite.streams[t.idx(suite.streams.len())];
     let key = gen_key(t, suite);
     let bs = suite.info.bs;
@@ -212,8 +212,11 @@ fn stream_cores(ctx: &Ctx, t: &mut Tape<'_>, r: &mut Report) -> CheckResult {
 /// Long one-shot CTS messages: the private bulk helpers (`cbc_dec`, `ecb_enc`, `ecb_dec`) have
 /// their own parallel paths; compare with the width-1 twin.
 fn cts_long(ctx: &Ctx, t: &mut Tape<'_>, r: &mut Report) -> CheckResult {
-    let suite = ctx.pick_suite(t, |s| s.info.par > 1 && ctx.width1_of(s).is_some());
-    let w1 = ctx.width1_of(suite).expect("harness: width-1 twin");
+    let suite = pick!(ctx, t, r, |s| s.par > 1 && ctx.has_width1(s));
+    let Some(w1) = ctx.width1_of(suite) else {
+        r.label("config-not-in-this-build");
+        return Ok(());
+    };
     let v = CtsVariant::ALL[t.idx(6)];
     let f = suite.cts(v).unwrap();
     let f1 = w1.cts(v).unwrap();
